@@ -597,6 +597,71 @@ def arith_cases(tier, seed, shard):
         yield dict(kind='arith', a=a, b=b)
 
 
+CLOSE_WIDE_CLASSES = ('midpoint_centred', 'random_wide_centre')
+
+
+def close_wide_cases(tier, seed, shard, stat=None):
+    """Compare workload: pairs of wide-mantissa FPNum (100..200 significant bits) that are UNEQUAL but agree in their leading 53..W-1 bits:
+    centre +- j * 2**k units of the last place for k over a geometric range, centres on the midpoint of two adjacent doubles (even and odd
+    neighbours) and on random wide values; each operand in its own representation (precision p = 2**q and exponent e chosen independently,
+    trailing zero bits in the mantissa, or built as a sum double + half-ulp + tiny with add), both signs, both orders, random binade."""
+    rnd = rng(seed, 'C12', 'close_wide', None)
+    out = []
+
+    def semp(sg, M, W, ex):
+        # value = sg * M * 2**(ex - (W-1)); the representation is free: mantissa M << t, p = 2**q, e = ex - (W-1) - t + q
+        t = rnd.choice((0, 0, 1, 7, rnd.randint(0, 40)))
+        q = rnd.choice((0, W - 1, W - 1 + t, rnd.randint(0, W + 40)))
+        return ['semp', sg, ex - (W - 1) - t + q, hex(M << t), hex(1 << q)]
+
+    def summed(sg, hi, mid_bit, j, dj, W, ex):
+        # the same value as a sum built with add: double + half ulp + signed tiny part
+        d = ['float', math.ldexp(float(sg * hi), ex - 52).hex()]
+        parts = d
+        if mid_bit:
+            parts = ['op', 'add', parts, ['semp', sg, ex - 53, hex(1), hex(1)]]
+        if j:
+            parts = ['op', 'add', parts, ['semp', sg * (1 if j > 0 else -1), ex - (W - 1) + dj, hex(abs(j)), hex(1)]]
+        return parts
+
+    widths = (100, 120, 150, 200) if tier == 'quick' else (94, 100, 107, 120, 128, 150, 177, 200, 260)
+    ncentre = 3 if tier == 'quick' else 12
+    for W in widths:
+        centres = []
+        for r in [0, 1, (1 << 52) - 1] + [rnd.getrandbits(52) for _ in range(ncentre)]:
+            hi = (1 << 52) | r
+            centres.append(('midpoint_centred', ((hi << 1) | 1) << (W - 54), hi))
+        for _ in range(ncentre + 2):
+            centres.append(('random_wide_centre', (1 << (W - 1)) | rnd.getrandbits(W - 1), None))
+        ks = sorted({0, 1, 2, 3, W - 56, W - 55} | {int(1.6 ** i) for i in range(1, 12) if int(1.6 ** i) < W - 55})
+        for cls, M0, hi in centres:
+            for k in ks:
+                j1, j2 = rnd.choice((1, 1, 3, rnd.randint(1, 48))), rnd.choice((1, 2, 5, rnd.randint(1, 48)))
+                for da, db in ((j1, 0), (0, -j1), (j1, -j2), (-j1, -j1 - j2), (j1 + j2, j1)):
+                    sg = rnd.choice((1, -1))
+                    ex = rnd.choice((0, 0, 1, -1, rnd.randint(-900, 900)))
+                    Ma, Mb = M0 + (da << k), M0 + (db << k)
+                    if hi is not None and rnd.random() < 0.4:
+                        a = summed(sg, hi, 1, da, k, W, ex)
+                    else:
+                        a = semp(sg, Ma, W, ex)
+                    if hi is not None and rnd.random() < 0.4:
+                        b = summed(sg, hi, 1, db, k, W, ex)
+                    else:
+                        b = semp(sg, Mb, W, ex)
+                    if rnd.random() < 0.5:
+                        a, b = b, a
+                    out.append(dict(kind='arith', a=a, b=b, cls=cls, agree_bits=W - (abs(da - db) << k).bit_length()))
+    for c in shard_slice(out, shard):
+        if stat is not None:
+            stat[c['cls']] = stat.get(c['cls'], 0) + 1
+            g = 'pairs_agreeing_in_%s_leading_bits' % ('53..79' if c['agree_bits'] < 80 else '80..119' if c['agree_bits'] < 120 else '120+')
+            stat[g] = stat.get(g, 0) + 1
+            if c['a'][0] == 'op' or c['b'][0] == 'op':
+                stat['pairs_with_an_operand_built_by_add'] = stat.get('pairs_with_an_operand_built_by_add', 0) + 1
+        yield c
+
+
 def desc_is_zero(d):
     if d[0] == 'pat':
         v = int(d[2], 16)
@@ -1532,6 +1597,19 @@ def run_check(run, tier, seed, shard):
     # (c) FPNum arithmetic
     sweep('fpnum_arith', arith_cases(tier, seed, shard), lambda c: not (desc_is_zero(c['a']) and desc_is_zero(c['b'])),
           lambda c: int(stable_hash([c['a'], c['b']]), 16), 1999)
+    # (c') compare on close wide-mantissa pairs
+    cwstat = {}
+    sweep('fpnum_close_wide_pairs', close_wide_cases(tier, seed, shard, cwstat), lambda c: True,
+          lambda c: int(stable_hash([c['a'], c['b']]), 16), 499)
+    cwstat['judged_evaluations'] = sect['fpnum_close_wide_pairs']['evaluations']
+    run.extra['close_wide_pair_class'] = cwstat
+    if not run.too_many:
+        for k in CLOSE_WIDE_CLASSES:
+            if not cwstat.get(k):
+                run.inconclusive.append('close wide-mantissa compare class never generated: %s' % k)
+        if sect['fpnum_close_wide_pairs']['evaluations'] < 4 * sect['fpnum_close_wide_pairs']['cases']:
+            run.inconclusive.append('close wide-mantissa compare class: %d of %d cases were not judged (operands did not denote the intended values)' % (
+                sect['fpnum_close_wide_pairs']['cases'] - sect['fpnum_close_wide_pairs']['evaluations'] // 4, sect['fpnum_close_wide_pairs']['cases']))
     # (d) FixedPoint helper
     fmts_seen = {}
 
